@@ -92,7 +92,9 @@ pub fn sheet_text(sheet: &Value, r: &mut Rng, v: &Vary) -> String {
                               "a[href^=\"x\"] span { color: red }\n", "div:has(> p) span { color: red }\n", "p:not(.x):not(.y) { color: red }\n", "@font-face { font-family: x; src: url(y) }\n",
                               // strings: the other kind of quote, and characters that would end a statement, inside them
                               "@import \"bob's.css\";\n", "q[title='6\" nails'] { color: red }\n", "q[x=\"}\"] b { color: red }\n", "q[x=';{'] { color: red }\n", "@import '}{\"';\n",
-                              "q[x=\"a\\\"b\"] { color: red }\n"]));
+                              "q[x=\"a\\\"b\"] { color: red }\n",
+                              // blocks nested in a value / in an at-rule
+                              "q { a : { } }\n", "q { a : { x ; y } ; c : d }\n", "@media print { @x { q { a : [ { } ] } } }\n", "q { --v: { a: b; c: ( d ; e ) } }\n"]));
         }
         let sels: Vec<String> = rule["sels"].as_array().unwrap().iter().map(|x| selector_text(x, r, v.on)).collect();
         s.push_str(&sels.join(if v.on && r.chance(1, 2) { "," } else { ", " }));
@@ -102,7 +104,7 @@ pub fn sheet_text(sheet: &Value, r: &mut Rng, v: &Vary) -> String {
         let decls = rule["decls"].as_array().unwrap();
         for (k, d) in decls.iter().enumerate() {
             if v.unknown_props && r.chance(1, 3) { s.push_str(*r.pick(&["margin: 0 auto; ", "font: 12px/1.5 \"A B\", serif; ", "-webkit-x: y; ", "width: calc(100% - 2px); ",
-                                                                         "font-family: \"Bob's Font\"; ", "quotes: '\"' '\"'; ", "x-y: \"a;b}c\"; ", "x-y: 'it''s'; "])); }
+                                                                         "font-family: \"Bob's Font\"; ", "quotes: '\"' '\"'; ", "x-y: \"a;b}c\"; ", "x-y: 'it''s'; ", "--x-y: { a ; b }; ", "x-y: [ { } ] ( ; ); "])); }
             s.push_str(&decl_text(d, r, v.on));
             let last = k + 1 == decls.len();
             if last { if v.double_semi { s.push_str(";;"); } else if !v.drop_semi { s.push(';'); } }
